@@ -10,5 +10,5 @@ CONSTANTS
   MaxBatchOps = 8
   Stops = {0, 1, 2, 3}
   Muts = {FALSE, TRUE}
-  Ops = {"Get", "Has", "Set", "Delete", "DeletePrefix", "Clear", "Flush", "Close", "Realm", "Batched", "Iterate", "IterateKeys", "WithRealm", "WithExtendedRealm", "BSet", "BDelete", "Cancel", "Commit"}
+  Ops = {"Get", "Has", "Set", "Delete", "DeletePrefix", "Clear", "Flush", "Close", "Realm", "Batched", "Iterate", "IterMut", "IterateKeys", "WithRealm", "WithExtendedRealm", "BSet", "BDelete", "Cancel", "Commit"}
 INVARIANTS TypeOK ClosedOK NotClosedOK GetOK HasOK SetOK IterOK StOK
